@@ -45,6 +45,9 @@ fn doc_sets(tier: Tier) -> Vec<Vec<(&'static str, DocForm)>> {
         vec![("hidden", Marker), (" a", Comment), (" b", Comment)],
         vec![(" a", Comment), ("alias = \"x\"", Marker), (" b", Comment)],
         vec![("hidden", Marker)],
+        // ONE doc attribute whose text spans several lines (what a multi-line block comment produces) is still one item
+        vec![(" a\n b", Attr)],
+        vec![(" x\ny", Attr), (" z", Comment)],
     ];
     if tier == Tier::Thorough {
         v.extend(vec![
@@ -137,6 +140,7 @@ fn alphabet(n: usize, tier: Tier) -> Vec<Dev> {
         }
     }
     d.extend(crate::devs::rich_generic_devs(true));
+    d.extend(crate::devs::context_devs());
     d.extend(crate::devs::syntax_devs(true, false, true, true));
     d
 }
